@@ -1,4 +1,5 @@
 mod handle;
+mod names;
 mod util;
 
 use util::*;
@@ -29,6 +30,25 @@ fn main() {
             };
             for v in &violations {
                 println!("ORACLE {}", v);
+            }
+        }
+        "upper-dump" => names::upper_dump(arg(&args, "--out").unwrap()),
+        "names" => {
+            let ops = arg(&args, "--ops").unwrap();
+            let imp = arg(&args, "--impl").unwrap();
+            if let Some(r) = arg(&args, "--replay") {
+                if r != ops {
+                    std::fs::copy(r, ops).ok();
+                }
+                names::replay(ops, imp);
+            } else {
+                let (hist, v) = names::campaign(arg_u64(&args, "--seed", 1), arg_u64(&args, "--count", 1000), ops, imp);
+                for (k, n) in &hist {
+                    println!("HIST {} {}", k, n);
+                }
+                for x in &v {
+                    println!("ORACLE {}", x);
+                }
             }
         }
         _ => {
